@@ -362,6 +362,38 @@ func c17Run(root any, ops []c17Op) *Case {
 		}
 		return reflect.DeepEqual(normVal(iv), normVal(rv))
 	}
+	type keptCopy struct {
+		st   *vuego.Stack
+		then map[string]any
+		at   int
+	}
+	var kept []keptCopy
+	lookAll := func(k *vuego.Stack) map[string]any {
+		out := map[string]any{}
+		for _, n := range c17Names {
+			func() {
+				defer func() { recover() }()
+				if v, ok := k.Lookup(n); ok {
+					out[n] = normVal(v)
+				}
+			}()
+		}
+		func() {
+			defer func() { recover() }()
+			for n, v := range k.EnvMap() {
+				out["env:"+n] = normVal(v)
+			}
+		}()
+		return out
+	}
+	defer func() {
+		for _, k := range kept {
+			if now := lookAll(k.st); !reflect.DeepEqual(k.then, now) && verdict.OK {
+				verdict.OK, verdict.Class, verdict.Detail = false, "copy-follows-original", fmt.Sprintf("a copy taken at step %d answers differently after later operations on the original: %v -> %v", k.at, k.then, now)
+				c.Oracle = verdict
+			}
+		}
+	}()
 	for _, o := range ops {
 		func() {
 			defer func() {
@@ -466,6 +498,14 @@ func c17Run(root any, ops []c17Op) *Case {
 					cp.Pop()
 					if after := takeSnap(); !reflect.DeepEqual(before.vals, after.vals) {
 						bad("copy-not-independent", "mutating the copy changed the original: %v -> %v", before.vals, after.vals)
+					}
+					// … and the other direction: a second copy is kept as it is; whatever is done to the ORIGINAL from here on (set, push, pop),
+					// the copy must still answer as it did when it was taken
+					// (a map root IS the bottom scope — NewStackWithData adopts the caller's map — and stays the shared root data of every copy: what
+					// the original writes there is a write to the caller's data, outside this claim)
+					if _, mapRoot := root.(map[string]any); !mapRoot && len(kept) < 4 {
+						k := st.Copy()
+						kept = append(kept, keptCopy{k, lookAll(k), len(obs)})
 					}
 				}
 				obs = append(obs, obsScope(env))
@@ -669,6 +709,17 @@ func runC17(r *Run, replay *Case) {
 			for _, s1 := range c17Steps {
 				add(mk(), []c17Op{{O: "resolve", E: t + s1}, {O: "foreach", E: t + s1}})
 			}
+		}
+	}
+	// a copy is a snapshot: operations on the original AFTER the copy was taken (rebinding, entering and leaving scopes) do not reach it
+	for _, mk := range []func() any{func() any { return nil }, func() any { return map[string]any{"a": "root-a", "name": "rn"} }, func() any { return S3{Title: "t", Name: "gn"} }} {
+		for _, seq := range [][]c17Op{
+			{{O: "copyenv"}, {O: "set", K: "a", V: toVal("later")}, {O: "set", K: "fresh", V: toVal(1)}, {O: "lookup", K: "a"}},
+			{{O: "push", M: []any{[]any{"a", toVal("inner")}}}, {O: "copyenv"}, {O: "pop"}, {O: "lookup", K: "a"}},
+			{{O: "push", N: true}, {O: "set", K: "b", V: toVal("in-scope")}, {O: "copyenv"}, {O: "set", K: "b", V: toVal("changed")}, {O: "pop"}, {O: "push", M: []any{[]any{"b", toVal("reused-map")}}}, {O: "lookup", K: "b"}},
+			{{O: "set", K: "a", V: toVal(1)}, {O: "copyenv"}, {O: "push", M: []any{[]any{"a", toVal(2)}}}, {O: "set", K: "a", V: toVal(3)}, {O: "pop"}, {O: "set", K: "a", V: toVal(4)}, {O: "copyenv"}, {O: "set", K: "name", V: toVal("n2")}},
+		} {
+			add(mk(), seq)
 		}
 	}
 	// a path step is a LITERAL key, field name or index — never the name of a variable whose value would be one: `prod.label` is absent when
